@@ -35,7 +35,7 @@ func (s state) anyClosed() bool {
 	if s.RtClosed || s.CacheClosed {
 		return true
 	}
-	for x := 0; x < 3; x++ {
+	for x := 0; x < nMods; x++ {
 		if s.Inst[x] == instClosed || s.Comp[x] {
 			return true
 		}
@@ -132,7 +132,7 @@ type twinHost struct {
 
 func (t *twinHost) get(eng int) *world {
 	if t.w[eng] == nil {
-		t.w[eng] = newWorld(false, eng, false, [3]bool{true, true, true}, 0)
+		t.w[eng] = newWorld(false, eng, false, [nMods]bool{true, true, true, true, true}, 0)
 	}
 	return t.w[eng]
 }
@@ -148,7 +148,7 @@ func (t *twinHost) release(eng int, tainted bool) {
 		t.w[eng] = nil
 		return
 	}
-	for x := 2; x >= 0; x-- {
+	for _, x := range []int{mN, mM, mC, mB, mA} {
 		if w.inst[x] != nil {
 			w.inst[x].Close(bgctx)
 			w.inst[x] = nil
@@ -173,7 +173,7 @@ type twinTrace struct {
 func runTwin(tw *world, h history, ps state) (tt twinTrace) {
 	tt.probes = map[string]string{}
 	for _, c := range h.Init.Mods {
-		if r := tw.do(op{K: kInst, X: int(c - 'A')}); r != "ok" {
+		if r := tw.do(op{K: kInst, X: modIndex(byte(c))}); r != "ok" {
 			fw.Fatalf("twin: initial graph %q: instantiate %c: %s", h.Init.Mods, c, r)
 		}
 	}
@@ -184,13 +184,13 @@ func runTwin(tw *world, h history, ps state) (tt twinTrace) {
 			if tw.inst[o.X] == nil {
 				r = tw.do(o)
 			}
-		case kStore, kReenter, kFailInst:
+		case kStore, kReenter, kFailInst, kGrowGuest, kGrowHost, kMemWrite:
 			r = tw.do(o)
 		}
 		tt.ops = append(tt.ops, r)
 	}
 	for _, phase := range probePhases {
-		for x := 0; x < 3; x++ {
+		for x := 0; x < nMods; x++ {
 			if ps.Inst[x] == instNone || ps.Drop[x] || tw.inst[x] == nil {
 				continue
 			}
@@ -214,9 +214,9 @@ func execHistory(h history, eng int, mark func(step int, site, phase string)) (r
 	tw := twins.get(eng)
 	tt := runTwin(tw, h, h.final())
 	// only modules the history can touch are compiled (an uninstantiated, unmentioned module is not part of the world)
-	var need [3]bool
+	var need [nMods]bool
 	for _, c := range h.Init.Mods {
-		need[c-'A'] = true
+		need[modIndex(byte(c))] = true
 	}
 	for _, o := range h.Ops {
 		if o.K == kInst {
@@ -231,7 +231,7 @@ func execHistory(h history, eng int, mark func(step int, site, phase string)) (r
 	}()
 	s := h.Init.state()
 	for _, c := range h.Init.Mods {
-		o := op{K: kInst, X: int(c - 'A')}
+		o := op{K: kInst, X: modIndex(byte(c))}
 		if a := w.do(o); a != "ok" {
 			fw.Fatalf("initial graph %q: instantiate %c: %s", h.Init.Mods, c, a)
 		}
@@ -260,6 +260,17 @@ func execHistory(h history, eng int, mark func(step int, site, phase string)) (r
 			}
 		case kFresh, kCloseInst, kCloseComp, kCloseCache, kCloseRt, kDrop, kGC, kCloseFiller:
 			operr = test != "ok"
+		case kGrowGuest, kGrowHost, kMemWrite:
+			// not a close / drop / collection: the twin grows and writes too
+			t := tt.ops[k]
+			if !strings.HasPrefix(t, "v:") && t != "ok" {
+				fw.Fatalf("twin: %s: %s", o, t)
+			}
+			cl, kind := judge(test, t, s)
+			if kind != "" {
+				return fail(k, site, "op", kind, test, t)
+			}
+			operr = cl == "ordinary-error"
 		case kStore:
 			t := tt.ops[k]
 			if t != "ok" {
@@ -304,7 +315,7 @@ func execHistory(h history, eng int, mark func(step int, site, phase string)) (r
 				return res
 			}
 			res.Status = "operr"
-			if o.K == kStore || o.K == kFailInst {
+			if o.K == kStore || o.K == kFailInst || o.K == kGrowGuest || o.K == kGrowHost || o.K == kMemWrite {
 				return res // the slot may or may not have been written: no probes
 			}
 		} else {
@@ -324,7 +335,7 @@ func execHistory(h history, eng int, mark func(step int, site, phase string)) (r
 			mark(len(h.Ops), "forced-gc", phase)
 			w.collect()
 		}
-		for x := 0; x < 3; x++ {
+		for x := 0; x < nMods; x++ {
 			if s.Inst[x] == instNone || s.Drop[x] {
 				continue
 			}
@@ -399,7 +410,7 @@ func classify(s state, eng int, f stepFail) (sig string, known bool) {
 	var parts []string
 	parts = append(parts, engineNames[eng], f.Site)
 	if i := strings.IndexByte(f.Site, '.'); i == 1 {
-		x := int(f.Site[0] - 'A')
+		x := modIndex(f.Site[0])
 		parts = append(parts, "exec="+modStatus(s, x))
 	}
 	sort.Ints(slots)
@@ -407,7 +418,7 @@ func classify(s state, eng int, f stepFail) (sig string, known bool) {
 		fn := s.Slots[sl]
 		d := slotNames[sl] + "=" + fnNames[fn]
 		if fn != fNull {
-			d += "(owner " + "ABCD"[fnOwner[fn]:fnOwner[fn]+1] + ":" + modStatus(s, fnOwner[fn]) + ")"
+			d += "(owner " + "ABCMND"[fnOwner[fn]:fnOwner[fn]+1] + ":" + modStatus(s, fnOwner[fn]) + ")"
 		}
 		parts = append(parts, d)
 	}
